@@ -302,9 +302,10 @@ def typelib_case(case):
     foreign = [f for f in rng.sample(FOREIGN, rng.choice([0, 1, 2, 4])) if f not in names]
     if n <= 3:
         foreign = []        # tiny namespaces keep exactly n entries (no perfect hash can be built for 2 keys: the index section is left out)
-    if foreign and len(names) + 2 * len(foreign) > 65535:
-        # the directory count is a guint16: at most 65535 entries, the non-local ones (one per foreign type referred to) included
-        names = names[:65535 - 2 * len(foreign)]
+    if foreign and len(names) + 2 * len(foreign) + 1 > 65535:
+        # the directory count is a guint16: at most 65535 entries, the non-local ones included (one per foreign type referred to,
+        # and GObject.Object as the parent of the generated classes)
+        names = names[:65535 - 2 * len(foreign) - 1]
     names = ['uses_foreign_%d' % k for k in range(len(foreign))] + names if foreign else names
     gir, model = gen_gir(rng, names[len(foreign):] if foreign else names, prefixes, foreign)
     model = [{'name': 'uses_foreign_%d' % k, 'gtype': None, 'domain': None, 'kind': 'function'} for k in range(len(foreign))] + model
